@@ -192,6 +192,24 @@ func c02Leaves() []model.Leaf {
 		l = lf("i", "in", "ints")
 		l.List = []model.Cell{}
 		add(l)
+		// value lists whose extremes are 2^63 or more apart, lists spanning exactly 63 / 64 / 65 values, an
+		// unsorted list, a list with a repeated member
+		for _, list := range [][]int{{math.MinInt64, 0}, {math.MaxInt64, math.MinInt64, 4}, {2, math.MaxInt64}, {math.MinInt64}, {-3, math.MaxInt64}, {-3, 59, 2}, {-3, 60, 2}, {-3, 61, 2},
+			{4, -3, 2, 0}, {2, 2, 4}, {0, 1 << 32}, {-1 << 31, 4}} {
+			l = lf("i", "in", "ints")
+			for _, v := range list {
+				l.List = append(l.List, model.I(v))
+			}
+			add(l)
+		}
+	}
+	// ordering against the extreme constants
+	for _, cmp := range rel {
+		for _, k := range []int{math.MaxInt64, math.MinInt64, -3} {
+			l := lf("i", cmp, "int")
+			l.I = k
+			add(l)
+		}
 	}
 	add(lf("i", "isnull", "none"))
 	add(lf("i", "isnotnull", "none"))
